@@ -275,6 +275,7 @@ fn main() {
     match args.get(1).map(|s| s.as_str()) {
         Some("enum") => cmd_enum(&args[2..]),
         Some("iter") => pl::cmd_iter(&args[2..]),
+        Some("randcheck") => pl::cmd_randcheck(&args[2..]),
         _ => {
             eprintln!("usage: vwrap enum --progs F --out DIR [--cap N] [--pb N] [--jobs N] | vwrap iter ...");
             std::process::exit(2);
